@@ -234,7 +234,7 @@ def run(ctx):
             if data is not None and recorded is not None and B.wt_in_model_domain(recorded):
                 lines.append(B.coq_triangle_defs(f"g{k}", recorded))
                 lines.append(f"Definition f{k} : bytes := {B.coq_zlist(data)}.")
-                chk.append((name, f"result_eqb (parse f{k}) (ROk g{k}) && zlist_eqb (ser g{k}) f{k} && wfb g{k} && no_0x88_keyb g{k}"))
+                chk.append((name, f"result_eqb (parse f{k}) (ROk g{k}) && zlist_eqb (ser_py g{k}) f{k} && zlist_eqb (ser g{k}) f{k} && wfb g{k} && no_0x88_keyb g{k} && coherentb g{k}"))
         lines.append("Definition chk : list bool := [" + ";\n ".join(c for _, c in chk) + "].")
         lines.append("Eval vm_compute in failing 0 chk.")
         p = ctx.build / "golden_cases.v"
@@ -257,6 +257,8 @@ def run(ctx):
                           "independent codec, the golden corpus and the header mutations found no failing input",
                           {"tbin_diff": tbin_diff}, found_input=False)
         ctx.extra["tbin_diff"] = tbin_diff
+        if not ctx.quick:
+            ctx.coqchk("Bermuda.Props.C06")
         ctx.assumptions += [
             "the independent Python codec (harness/bin_common.py) is a faithful reading of the documented layout",
             "recorded contents of the shipped files were taken from the verified tree on 2026-09-30",
